@@ -68,13 +68,50 @@ Fixpoint all_in (a b : list (bytes * bytes)) : bool :=
 Definition same_pairs (a b : list (bytes * bytes)) : bool :=
   (List.length a =? List.length b)%nat && all_in a b && all_in b a.
 
+(** The script file against the model's text, as far as the shell is
+    concerned: the file must end with the user's command exactly as the model
+    has it (bytes: it may hold here-documents and quoted multi-line strings),
+    and the prologue the generator writes before it must be the model's line
+    for line once full-line comments (first non-blank character #; the shebang
+    line 1 is kept) and blank lines are dropped on both sides - a shell skips
+    those.  The REAL file, comments included, is what bash executes in the
+    execution cases. *)
+Fixpoint lines_aux (cur : bytes) (l : bytes) : list bytes :=
+  match l with
+  | [] => match cur with [] => [] | _ => [rev cur] end
+  | c :: tl => if Byte.eqb c x0a then rev cur :: lines_aux [] tl else lines_aux (c :: cur) tl
+  end.
+Fixpoint first_nonblank (l : bytes) : option byte :=
+  match l with
+  | [] => None
+  | c :: tl => if Byte.eqb c x20 || Byte.eqb c x09 then first_nonblank tl else Some c
+  end.
+Definition skipped_by_shell (l : bytes) : bool :=
+  match first_nonblank l with None => true | Some c => Byte.eqb c x23 end.
+Definition canon_prologue (b : bytes) : list bytes :=
+  match lines_aux [] b with
+  | [] => []
+  | l1 :: rest => l1 :: filter (fun l => negb (skipped_by_shell l)) rest
+  end.
+Definition script_matches (c : cast_case) (a : actor) (s : script) (o : bytes) : bool :=
+  match strip_suffix (s_cmd s ++ [x0a]) o with
+  | Some pro =>
+      list_eqb bytes_eqb (canon_prologue pro)
+                         (canon_prologue (render_lines (script_prefix (cc_shell c) (cc_rundir c) a s)))
+  | None => false
+  end.
+
 Definition actor_text_ok (c : cast_case) (ma : bytes * actor) (o : actor_obs) : bool :=
   let a := snd ma in
   bytes_eqb (ao_name o) (a_name a) &&
   bytes_eqb (ao_workdir o) (work_dir (cc_rundir c) (a_name a)) &&
   bytes_eqb (ao_env o) (a_env a) &&
-  same_pairs (ao_scripts o)
-    (map (fun s => (s_name s, script_text (cc_shell c) (cc_rundir c) a s)) (actor_scripts a)).
+  (* script names are unique on both sides: same number, and every script of the model is there *)
+  (List.length (ao_scripts o) =? List.length (actor_scripts a))%nat &&
+  forallb (fun s => match alookup (s_name s) (ao_scripts o) with
+                    | Some t => script_matches c a s t
+                    | None => false
+                    end) (actor_scripts a).
 
 Fixpoint actors_text_ok (c : cast_case) (ms : list (bytes * actor)) (os : list actor_obs) : bool :=
   match ms, os with
